@@ -23,6 +23,10 @@ type readerCfg struct {
 	ZeroReads bool   `json:"zero_reads"`
 	EOFData   bool   `json:"eof_with_data"`
 	Name      string `json:"name"` // if set the reader is a FileNamer
+	// After says what the reader does once it has reported its failure: "" = the same error on
+	// every later call, "eof" = io.EOF from then on, "resume" = the remaining data as if nothing
+	// had happened (a transient failure)
+	After string `json:"after"`
 }
 
 type meterReader struct {
@@ -34,6 +38,7 @@ type meterReader struct {
 	sawEnd    bool
 	flip      bool
 	failedErr error
+	sawEnd2   bool
 }
 
 type timeoutErr struct{}
@@ -59,6 +64,20 @@ func (m *meterReader) Read(p []byte) (int, error) {
 	limit := len(m.data)
 	if m.cfg.FailAt >= 0 && m.cfg.FailAt < limit {
 		limit = m.cfg.FailAt
+	}
+	if m.failedErr != nil && m.cfg.After == "resume" {
+		limit = len(m.data)
+	}
+	if m.pos >= limit && m.failedErr != nil && m.cfg.After != "" {
+		// after a transient failure: end of input (either at once, or after the remaining data)
+		if m.sawEnd2 {
+			m.afterEnd++
+			if m.afterEnd > 4096 {
+				panic(core.RunawaySentinel("reads after end of input"))
+			}
+		}
+		m.sawEnd2 = true
+		return 0, io.EOF
 	}
 	if m.pos >= limit {
 		if m.sawEnd {
